@@ -567,7 +567,7 @@ def c05(ctx):
     ctx.evaluations = nn
     ctx.samples += [{"container": m["container"], "d": show_quads(m["d"]), "canonical": uncps(m["sha256"]["text"])} for m in trace[3]["members"][:2]] if len(trace) > 3 and trace[3]["ev"] == "Batch" else []
     mc.join()
-    ctx.rule = ("%d batches: a symmetric blank-node structure (cycles, cliques, disjoint triangles, stars, K(2,3), cycle+chord, bidirectional cycles, blank graph names, same statement in two graphs, self loops, random with "
+    ctx.rule = ("%d batches: a symmetric blank-node structure (cycles, cliques, disjoint triangles, stars, K(2,3), cycle+chord, bidirectional cycles, blank graph names, same statement in two graphs, self loops, twins across graphs, random with "
                 "escape-relevant literals; <= 6 blank nodes), two relabelled+shuffled copies held in other containers (HashSet, BTreeSet, FastDataset, LightDataset) and three one-step neighbours; real SHA-256 and SHA-384. "
                 "TLC decides isomorphism by brute force, reads every canonical document with the independent N-Quads reader, and checks the identifier map. evaluations = normalisations+relabellings judged" % n)
     ctx.assumptions += ["language tags compared literally, as the property says; the dataset judged is what the container holds"]
@@ -576,6 +576,11 @@ def c05(ctx):
 def c06(ctx):
     binary = build()
     mc = Bg(lambda: model_check(ctx, "MC_Rdfc10", cfg="MC_Rdfc10" if ctx.quick() else "MC_Rdfc10_full", workers=2, timeout=3000))
+    # the W3C algorithm is itself label-dependent on "twins across graphs": TLC refutes label independence of the transcription there
+    out = tlc(ctx, "MC_Rdfc10", cfg="MC_Rdfc10_twins", workers=2, timeout=900, tag="MC_Rdfc10_twins")
+    if "TwinsLabelIndependent is equal to FALSE" not in out and "Invariant TwinsLabelIndependent is violated" not in out:
+        raise ToolError("MC_Rdfc10_twins no longer shows the ambiguity of RDFC-1.0 on twins across graphs\n" + out[-1500:])
+    ctx.notes.append("Rdfc10.tla: on 'twins across graphs' the W3C text allows two documents (OutcomeDocs), on the 11 symmetric structures exactly one")
     tr = os.path.join(ctx.traces, "toy.ndjson")
     n = 240 if ctx.quick() else 6000
     sv(binary, ["c14n", "--mode", "toy", "--n", n, "--seed", ctx.seed, "--out", tr], ctx=ctx)
@@ -605,7 +610,8 @@ def c06(ctx):
     mc.join()
     ctx.rule = ("Rdfc10.tla transcribes W3C RDFC-1.0 sections 4.4-4.8 step by step, parameterised by a computable toy hash (four 15-bit polynomial hashes) that is also plugged into the real normalize_with/relabel_with through the public HashFunction trait. "
                 "MC_Rdfc10: the transcription is label- and order-independent on 11 symmetric structures and step 5.2.1 is an optimisation only. %d datasets (same families as C05) x toy-hash seed in {0,1,2} (permutes the order of hash values) x "
-                "(depth factor, permutation limit) in {default, 0.5, 2.0} x {1, 2, 6}: TLC recomputes the canonical document and requires byte equality, the identifier map when step 5.3 has no tie, 'unsupported' for unsupported input, "
+                "(depth factor, permutation limit) in {default, 0.5, 2.0} x {1, 2, 6}: TLC recomputes the canonical document and requires byte equality and the same identifier map; where the W3C text leaves a choice (a tie at 5.3 or 5.4.6) "
+                "the document and the map must each be one of the outcomes the text allows (Rdfc10!OutcomeCanons, the set-valued reading of the algorithm); 'unsupported' for unsupported input, "
                 "and ToxicGraph only when a limit is exceeded in the specification's own run. distinct = (dataset, seed, limits)" % n)
     ctx.assumptions += ["SHA-2 digests are not recomputed in TLA+: conformance with the real hash functions is argued by parametricity (the algorithm touches the hash only through initialize/update/finalize/Ord/hex); C05 exercises the real SHA-256/384",
                         "the blank-node-to-quads map holds each quad once per blank node (set reading of step 2.1, as in the reference implementation)"]
